@@ -1220,6 +1220,65 @@ def c14_13(ck, prog):
         raise AnalysisBroken('allocating container primitives: only %d found' % n)
 
 
+def c14_15(ck, prog):
+    """The allocator reports failure instead of aborting, unless the environment asked for the abort."""
+    MEM = 'dbus/dbus-memory.c'
+    r = ck.rule('C14.15', 'dbus_malloc / dbus_malloc0 / dbus_realloc report a failed system allocation by returning NULL: '
+                'the abort-on-failure switch malloc_cannot_fail (embedded-tests builds) starts FALSE, is stored only by '
+                '_dbus_initialize_malloc_debug and only under a test of _dbus_getenv ("DBUS_MALLOC_CANNOT_FAIL"), and the '
+                'allocators reach _dbus_abort only under that switch', 'WHO',
+                breaks='a genuine out-of-memory kills the process (the bus with all its state) instead of being reported '
+                       'as NoMemory to the caller, who could have retried', floor=5)
+    tab = prog.tables.get(('malloc_cannot_fail', MEM))
+    if tab is None:
+        r.skip('no malloc_cannot_fail switch in this configuration (embedded tests off): the allocators cannot abort')
+        return
+    init = tab.get('init')
+    while isinstance(init, dict) and init.get('k') in ('paren', 'cast'):
+        init = init['e']
+    if is_int(init, 0):
+        r.ok('malloc_cannot_fail:starts-false')
+    else:
+        r.violation('malloc_cannot_fail:starts-false', 'malloc_cannot_fail', MEM, tab.get('line'),
+                    'the abort-on-allocation-failure switch does not start FALSE: every failed allocation aborts')
+    for f in prog.funcs.values():
+        if f.file != MEM:
+            continue
+        for b, i, ev in f.events():
+            for lhs, how, rhs in written_lvalues(ev):
+                if is_ref(lhs, 'malloc_cannot_fail') and lhs.get('kind') != 'local':
+                    key = 'store:%s:%d' % (f.name, ev['line'])
+                    if f.name != '_dbus_initialize_malloc_debug':
+                        r.violation(key, f.name, MEM, ev['line'], 'malloc_cannot_fail is stored outside '
+                                    '_dbus_initialize_malloc_debug')
+                        continue
+                    # the store is control dependent on a test of the environment variable
+                    envs = [c for bb, ii, c in f.calls() if c.get('callee') == '_dbus_getenv' and c.get('args')
+                            and 'DBUS_MALLOC_CANNOT_FAIL' in estr(c['args'][0])]
+                    if envs:
+                        r.ok(key)
+                    else:
+                        r.violation(key, f.name, MEM, ev['line'], 'malloc_cannot_fail is set without looking at '
+                                    'DBUS_MALLOC_CANNOT_FAIL in the environment')
+    for name in ('dbus_malloc', 'dbus_malloc0', 'dbus_realloc'):
+        fn = prog.fn(name, MEM)
+
+        def key_of(atom, resolve):
+            if atom[0] == 'truthy' and is_ref(atom[1], 'malloc_cannot_fail'):
+                return ('mcf',)
+            return None
+
+        def on_event(user, ev, ctx):
+            if ev['ev'] == 'call' and ev['e'].get('callee') == '_dbus_abort' and ctx.atom(('mcf',)) is not True:
+                ctx.report('_dbus_abort is reached without malloc_cannot_fail being set', ev['line'], key='abort')
+            return user
+        ex = Explorer(fn, on_event=on_event, atom_key=key_of, track='auto').run()
+        if ex.reports:
+            r.from_reports(ex.reports, keyfn=lambda k, rep, name=name: '%s:abort-only-under-switch' % name)
+        else:
+            r.ok('%s:abort-only-under-switch' % name, {'paths': getattr(ex, 'n_paths', None)})
+
+
 def run(ck):
     ck.explanation = (
         'Static rules over bus/services.c, bus/driver.c, bus/connection.c, bus/dispatch.c, bus/signals.c, '
@@ -1246,6 +1305,7 @@ def run(ck):
         c14_9(ck, prog)
         c14_12(ck, prog)
         c14_13(ck, prog)
+        c14_15(ck, prog)
         rw = ck.rule('C14.14', "a connection's list of owned names (and its count, which max_names_per_connection is checked against) changes only with the life of an owner object: bus_connection_add_owned_service is called only by bus_owner_new, its _link form only by that function, bus_connection_remove_owned_service only by bus_owner_unref", 'WHO', breaks="a name is listed (and counted) twice for a connection after a cancelled ownership change: the limit is reached early, and the connection's disconnect removes the name twice (the bus crashes)", floor=3)
         lib.who_calls(prog, rw, 'bus_connection_add_owned_service', {'bus_owner_new'})
         lib.who_calls(prog, rw, 'bus_connection_add_owned_service_link', {'bus_connection_add_owned_service'})
